@@ -2,7 +2,7 @@
    the model in Model.v / Skeleton.v; Gen/C12.v is regenerated from /repo on every run. *)
 From Coq Require Import Relations.
 From Sdns Require Import Common.Base Gen.C12 C12.Model C12.Skeleton
-  C12.Proofs_ledger C12.Proofs_sig C12.Proofs_guard C12.Proofs_run C12.Proofs_skeleton C12.Proofs_reply C12.Proofs_query C12.Proofs_trace.
+  C12.Proofs_ledger C12.Proofs_sig C12.Proofs_guard C12.Proofs_run C12.Proofs_skeleton C12.Proofs_reply C12.Proofs_query C12.Proofs_trace C12.Run.
 Open Scope N_scope.
 
 (* ---- translator ties: the kind sets the two dimension switches range over, the DNSSEC/network
@@ -218,7 +218,7 @@ Proof. exact (@budgets_hold). Qed.
 Print Assumptions exchange_preceded_by_debit.
 
 (* ... and the resolver skeleton is such a program, for every configuration *)
-Theorem skeleton_is_guarded : forall maxdepth qmin v6 Smax Fmax c, guarded (client maxdepth qmin v6 Smax Fmax c).
+Theorem skeleton_is_guarded : forall maxdepth qmin v6 Smax Fmax Lmax G gen c, guarded (client maxdepth qmin v6 Smax Fmax Lmax G gen c).
 Proof. exact client_guarded. Qed.
 Print Assumptions skeleton_is_guarded.
 
@@ -238,31 +238,69 @@ Print Assumptions budgets_hold_at_every_step.
    context of each (queryer nesting, CNAME-chase depth, DNAME depth, NS-lookup mark, best-effort mark) derives
    from the context of the run that asked for it by exactly one legitimate step ([child_ok]); at the end
    every run has returned. *)
-Theorem subquery_call_tree : forall maxdepth qmin v6 Smax Fmax c adv w,
-  tree_run v6 (mk_sl 0 c) [] (trace adv (client maxdepth qmin v6 Smax Fmax c) w) = Some (mk_sl 0 c, []).
+Theorem subquery_call_tree : forall maxdepth qmin v6 Smax Fmax Lmax G gen c adv w,
+  tree_run v6 (mk_sl 0 c) [] (trace adv (client maxdepth qmin v6 Smax Fmax Lmax G gen c) w) = Some (mk_sl 0 c, []).
 Proof. exact client_call_tree_lemma. Qed.
 Print Assumptions subquery_call_tree.
 
 (* ... and what one legitimate step means for the three depth counters *)
 Theorem call_tree_step_respects_caps : forall v6 par ch, child_ok v6 par ch = true ->
-  (N.of_nat (sl_nest ch) <= max_queryer_recursion) /\
+  (N.of_nat (sl_nest ch) <= N.max (N.of_nat (sl_nest par)) max_queryer_recursion) /\
+  N.of_nat (cx_chase (sl_cx ch)) <= N.of_nat (cx_chase (sl_cx par)) + 1 /\
+  N.of_nat (cx_dname (sl_cx ch)) <= N.of_nat (cx_dname (sl_cx par)) + 1 /\
   (cx_chase (sl_cx ch) = S (cx_chase (sl_cx par)) -> N.of_nat (cx_chase (sl_cx ch)) <= max_cname_chase_depth) /\
-  (cx_dname (sl_cx ch) = S (cx_dname (sl_cx par)) -> N.of_nat (cx_dname (sl_cx ch)) <= max_dname_depth) /\
-  (cx_chase (sl_cx par) <= cx_chase (sl_cx ch) <= S (cx_chase (sl_cx par)))%nat /\
-  (cx_dname (sl_cx par) <= cx_dname (sl_cx ch) <= S (cx_dname (sl_cx par)))%nat.
+  (cx_dname (sl_cx ch) = S (cx_dname (sl_cx par)) -> N.of_nat (cx_dname (sl_cx ch)) <= max_dname_depth).
 Proof. exact child_ok_caps. Qed.
 Print Assumptions call_tree_step_respects_caps.
+
+(* ... the same for an observer who learns every sub-run's parent directly (the lab's probe passes its identity down the
+   context): each (parent, child) pair is a legitimate step, a sub-run without a parent is the first query of a detached
+   IPv6 walk — nesting 1 on the fresh context (wave 5: the detached walk is modelled as the code runs it) *)
+Theorem subquery_pairs : forall maxdepth qmin v6 Smax Fmax Lmax G gen c adv w,
+  forallb (pair_ok v6) (pairs_of (mk_sl 0 c) [] (trace adv (client maxdepth qmin v6 Smax Fmax Lmax G gen c) w)) = true.
+Proof. exact client_pairs_lemma. Qed.
+Print Assumptions subquery_pairs.
 
 (* non-vacuity: a run of the client program with nested sub-runs (hit path, chase three levels deep on an
    internal budget of 3), and one with exchanges only *)
 Example trace_example :
   let pol := mk_T_RecursionWorkPolicy mode_enforce 128 3 4 8 32 32 32 32 in
-  let tr := trace (fun _ => 1%nat) (client 30 5 false 1 1 cx0) (fresh pol) in
-  let tx := trace (fun j => match j with O => O | _ => 1%nat end) (client 30 5 false 1 1 cx0) (fresh pol) in
+  let tr := trace (fun _ => 1%nat) (client 30 5 false 1 1 3 2 1 cx0) (fresh pol) in
+  let tx := trace (fun j => match j with O => O | _ => 1%nat end) (client 30 5 false 1 1 3 2 1 cx0) (fresh pol) in
   length (filter (fun e => match e with EvS _ _ _ => true | _ => false end) tr) = 3%nat /\
   steps_ok true 128 3 0 0 0 0 tr = true /\
   length (filter (fun e => match e with EvX _ _ => true | _ => false end) tx) = 8%nat /\
   steps_ok true 128 3 0 0 0 0 tx = true.
+Proof. vm_compute. repeat split. Qed.
+
+(* non-vacuity (wave 5): a run in which a new delegation spawns the detached IPv6 walk — its query starts at nesting 1 on the
+   fresh context under the client's own chain —, and a run in which the validation of a negative answer fetches a DS by a
+   direct sub-resolution (label mk_dl: same nesting, same context): internal query debited first, its own exchange debited *)
+Example detached_and_validation_example :
+  let pol := mk_T_RecursionWorkPolicy mode_enforce 128 32 4 8 32 32 32 32 in
+  let adv1 := fun j => nth j [0;0;0;3;0;2;6;0;0;1;1;1;0;0;0;3;0;0;0;0]%nat 0%nat in
+  let adv2 := fun j => nth j [0;0;0;3;0;2;1;1;1;0;0;3;0;0;0]%nat 0%nat in
+  trace adv1 (client 30 5 true 1 1 3 2 1 cx0) (fresh pol) = [EvX 1 0; EvS (mk_sl 1 cx_fresh) 1 1; EvE; EvX 2 1] /\
+  trace adv2 (client 30 5 false 1 1 3 2 1 cx0) (fresh pol) = [EvX 1 0; EvS (mk_dl 0 cx0) 1 1; EvX 2 1; EvE] /\
+  (let w := fst (run adv2 (client 30 5 false 1 1 3 2 1 cx0) (fresh pol)) in w_sub w = 1 /\ l_int (w_led w) = 1 /\ l_out (w_led w) = 2).
+Proof. vm_compute. repeat split. Qed.
+
+(* ---- the forwarder (wave 5): every transport attempt of middleware/forwarder — the TCP retry after TC=1 included — sits
+   behind dnsclient's BeforeAttempt (guard, then outbound debit), so the interpreter theorems above apply to it; it makes at
+   most two attempts per configured upstream.  Run.check_case compares [forward] with the real Forwarder exactly (CaseFwd). *)
+Theorem forwarder_is_guarded : forall be n, guarded (forward be n).
+Proof. exact forward_guarded. Qed.
+Print Assumptions forwarder_is_guarded.
+
+Theorem forwarder_work_bound : forall be n adv w,
+  w_exch (fst (run adv (forward be n) w)) <= w_exch w + N.of_nat (2 * n).
+Proof. intros. apply run_costs. apply forward_costs. Qed.
+Print Assumptions forwarder_work_bound.
+
+Example forwarder_example :
+  let pol := mk_T_RecursionWorkPolicy mode_enforce 3 32 4 8 32 32 32 32 in
+  let '(w, r) := run (fwd_adv [3; 2; 1]) (forward false 3) (fresh pol) in
+  w_exch w = 3 /\ l_out (w_led w) = 3 /\ r = ReplyWork (RLimit kind_outbound 3) true.
 Proof. vm_compute. repeat split. Qed.
 
 (* resolve_terminates: the client program is a total function of the adversary — [resolve] is defined
@@ -271,19 +309,20 @@ Proof. vm_compute. repeat split. Qed.
    the guard tested by the Go code made the tuple smaller (the ob_ lemmas of Skeleton.v); everything else
    structurally on the code's own counters; no fuel anywhere, no axiom (session 3: the Equations
    definition and with it functional_extensionality_dep are gone) *)
-Theorem resolve_terminates : forall maxdepth qmin v6 Smax Fmax adv w,
-  exists w' r, run adv (client maxdepth qmin v6 Smax Fmax cx0) w = (w', r).
+Theorem resolve_terminates : forall maxdepth qmin v6 Smax Fmax Lmax G gen adv w,
+  exists w' r, run adv (client maxdepth qmin v6 Smax Fmax Lmax G gen cx0) w = (w', r).
 Proof. exact resolve_terminates_lemma. Qed.
 Print Assumptions resolve_terminates.
 Print Assumptions resolve.
 
-(* work_bound_off: a closed form that bounds the exchanges of one client query in EVERY mode (so in
-   particular with the firewall off), for every adversary whose delegations carry at most Smax+1
-   server addresses and Fmax glue-less names:
-       A * (1 + B + ... + B^32),  A = rounds * (Smax+1) * 5,  B = rounds * (2 Fmax + 1) + 10,
-       rounds = 1 + maxdepth * 4 (qmin+1) + 3 (qmin+1) + qmin  *)
-Theorem work_bound_off : forall maxdepth qmin v6 Smax Fmax adv w,
-  w_exch (fst (run adv (client maxdepth qmin v6 Smax Fmax cx0) w)) <= w_exch w + N.of_nat (work_bound maxdepth qmin Smax Fmax).
+(* work_bound_off: a computable bound (Proofs_skeleton.work_bound, defined by the same recursions as the skeleton: nested
+   queries 32 deep, validation sub-queries over at most Lmax labels with G repeats of one question, [gen] generations of
+   detached IPv6 walks inside the observation window) on the exchanges of one client query in EVERY mode (so in particular
+   with the firewall off), for every adversary whose delegations carry at most Smax+1 server addresses and Fmax glue-less
+   names.  With IPv6Access the bound grows with [gen] and nothing in the code but the ledger (enforce mode) bounds [gen]:
+   see NOTES.md, "detached generations". *)
+Theorem work_bound_off : forall maxdepth qmin v6 Smax Fmax Lmax G gen adv w,
+  w_exch (fst (run adv (client maxdepth qmin v6 Smax Fmax Lmax G gen cx0) w)) <= w_exch w + N.of_nat (work_bound maxdepth qmin Smax Fmax Lmax G gen).
 Proof. exact work_bound_off_lemma. Qed.
 Print Assumptions work_bound_off.
 
@@ -292,28 +331,28 @@ Print Assumptions work_bound_off.
    DNS Error), and it is never handed to the failure cache — on the cache-miss path and, since fix
    ca465fd, on the cache-hit path as well.  (Before the fix the EDE clause was refuted on the hit path;
    reverting the fix makes the lab report the violation again.) *)
-Theorem overbudget_is_servfail_not_cached : forall maxdepth qmin v6 Smax Fmax pol adv,
-  let '(w', r) := run adv (client maxdepth qmin v6 Smax Fmax cx0) (fresh pol) in
+Theorem overbudget_is_servfail_not_cached : forall maxdepth qmin v6 Smax Fmax Lmax G gen pol adv,
+  let '(w', r) := run adv (client maxdepth qmin v6 Smax Fmax Lmax G gen cx0) (fresh pol) in
   latched w' -> exists e, r = ReplyWork e true.
 Proof. exact overbudget_lemma. Qed.
 Print Assumptions overbudget_is_servfail_not_cached.
 
-Theorem overbudget_miss_path_carries_ede : forall maxdepth qmin v6 Smax Fmax nq c adv w e ede,
-  snd (run adv (pipeline_miss maxdepth qmin v6 Smax Fmax nq c) w) = ReplyWork e ede -> ede = true.
+Theorem overbudget_miss_path_carries_ede : forall maxdepth qmin v6 Smax Fmax nq nq0 vq c adv w e ede,
+  snd (run adv (pipeline_miss maxdepth qmin v6 Smax Fmax nq nq0 vq c) w) = ReplyWork e ede -> ede = true.
 Proof. exact pipeline_miss_has_ede. Qed.
 Print Assumptions overbudget_miss_path_carries_ede.
 
 (* non-vacuity, and the former counterexample: the hit-path chase runs over an internal budget of 1 *)
 Example overbudget_hit_path_example :
-  let '(w', r) := run (fun _ => 1%nat) (client 30 5 false 1 1 cx0) (fresh witness_pol) in
+  let '(w', r) := run (fun _ => 1%nat) (client 30 5 false 1 1 3 2 1 cx0) (fresh witness_pol) in
   latched w' /\ r = ReplyWork (RLimit kind_internal 1) true.
 Proof. exact overbudget_hit_path_example_lemma. Qed.
 
 (* shadow_equals_off: as functions of the adversary, the reply, the upstream exchanges and the
    sub-queries of one client query are identical with the firewall off and in shadow mode *)
-Theorem shadow_equals_off : forall maxdepth qmin v6 Smax Fmax pol_off pol_shadow adv,
+Theorem shadow_equals_off : forall maxdepth qmin v6 Smax Fmax Lmax G gen pol_off pol_shadow adv,
   p_mode pol_off = mode_off -> p_mode pol_shadow = mode_shadow ->
-  let p := client maxdepth qmin v6 Smax Fmax cx0 in
+  let p := client maxdepth qmin v6 Smax Fmax Lmax G gen cx0 in
   snd (run adv p (fresh pol_off)) = snd (run adv p (fresh pol_shadow)) /\
   w_exch (fst (run adv p (fresh pol_off))) = w_exch (fst (run adv p (fresh pol_shadow))) /\
   w_sub (fst (run adv p (fresh pol_off))) = w_sub (fst (run adv p (fresh pol_shadow))).
@@ -329,8 +368,8 @@ Proof. vm_compute. repeat split. Qed.
 
 (* the skeleton reaches its internal budget: the adversary of the refutation spends it exactly *)
 Example budget_reached_example :
-  let w' := fst (run (fun _ => 1%nat) (client 30 5 false 1 1 cx0) (fresh witness_pol)) in
-  w_sub w' = p_max_int witness_pol /\ wenf (fresh witness_pol) /\ guarded (client 30 5 false 1 1 cx0).
+  let w' := fst (run (fun _ => 1%nat) (client 30 5 false 1 1 3 2 1 cx0) (fresh witness_pol)) in
+  w_sub w' = p_max_int witness_pol /\ wenf (fresh witness_pol) /\ guarded (client 30 5 false 1 1 3 2 1 cx0).
 Proof. split; [vm_compute; reflexivity|split; [reflexivity|apply client_guarded]]. Qed.
 
 (* a fourth attempt for a tuple sitting in the overflow map (nine other tuples fill the slots first) *)
